@@ -658,6 +658,12 @@ fn spawn_async_ao_list_in_task'''),
         ('plain-operator-strips-tabs', 'brush-parser/src/parser/peg.rs', "                    remove_tabs: false,", "                    remove_tabs: true,"),
         ('backslash-in-the-delimiter-does-not-count-as-quoting', 'brush-parser/src/parser/peg.rs', [("specific_operator(\"<<\") here_tag:here_tag() doc:[_] closing_tag:here_tag() {\n                let requires_expansion = !here_tag.to_str().contains(['\\'', '\"', '\\\\']);", "specific_operator(\"<<\") here_tag:here_tag() doc:[_] closing_tag:here_tag() {\n                let requires_expansion = !here_tag.to_str().contains(['\\'', '\"', '\"']);")]),
     ],
+    'U69': [
+        ('unmatched-pattern-kept-without-its-quoted-pieces', 'brush-core/src/expansion.rs', "            } else {\n                Ok(vec![String::from(field)])\n            }", "            } else {\n                Ok(vec![String::from(field.clone()), String::from(field)])\n            }"),
+        ('nullglob-and-default-swapped', 'brush-core/src/expansion.rs', "            if self.shell.options().expand_non_matching_patterns_to_null {\n                Ok(vec![])", "            if !self.shell.options().expand_non_matching_patterns_to_null {\n                Ok(vec![])"),
+        ('failglob-also-for-words-without-a-pattern', 'brush-core/src/expansion.rs', "        if expansion.is_unmatched_glob()\n            && self.shell.options().fail_expansion_on_globs_without_match", "        if self.shell.options().fail_expansion_on_globs_without_match"),
+        ('dotglob-inverted', 'brush-core/src/expansion.rs', "require_dot_in_pattern_to_match_dot_files: !self.shell.options().glob_matches_dotfiles,", "require_dot_in_pattern_to_match_dot_files: self.shell.options().glob_matches_dotfiles,"),
+    ],
     'U67': [
         ('attribute-flags-arm-skipped-for-special-parameters', 'brush-core/src/expansion.rs', "                op: ParameterTransformOp::ToAttributeFlags,\n            } => {", "                op: ParameterTransformOp::ToAttributeFlags,\n            } if !matches!(parameter, brush_parser::word::Parameter::Special(_)) => {"),
         ('assignment-logic-arm-only-for-direct-parameters', 'brush-core/src/expansion.rs', "                op: ParameterTransformOp::ToAssignmentLogic,\n            } => {", "                op: ParameterTransformOp::ToAssignmentLogic,\n            } if !indirect => {"),
